@@ -1,2 +1,15 @@
 import STProofs.Structure
-/-! # C13 — coordinates are solved independently -/
+import STProofs.StructureProp
+/-!
+# C13 — coordinates are solved independently (every order, N, D)
+
+* construction: `colOf_eq_1D`, `colOf_congr` (everything computed for coordinate `j` is what the 1-D model computes from
+  coordinate `j` alone), `coeff_of_column`, `energy_is_sum` (energy, duration gradients and duration partials are sums over
+  coordinates), `colOf_permute` (permuting coordinates permutes outputs);
+* propagation: `propagateND_inner`, `propagateND_boundary` (coordinate `j` of every propagated point / boundary gradient is
+  the output of the 1-D propagation of column `j`), `propCol_eq_1D` (which reads only coordinate `j` of waypoints, boundary
+  states and upstream gradient), `propagateND_times` (duration gradient = upstream + sum over coordinates).
+
+Together with the 1-D adjoint theorems of C05 this is the statement that the D-dimensional `propagateGrad` is the exact
+adjoint coordinate by coordinate.
+-/
